@@ -10,7 +10,8 @@
    `path` = a chase that follows MOVED answers, possibly still in flight; every proxy holds install_ns ns p, which by
    C02_install_of_view is what the coordinator's sender makes it install from the broker's view of that proxy. *)
 From UM Require Import Base.BytesDef Model.Ranges Model.Broker Model.Route
-     Proofs.BrokerPartRanges Proofs.BrokerPartDefs Proofs.RouteProofs Proofs.RouteProofsDyn Proofs.RouteProofsGlue Proofs.RouteProofsEx.
+     Proofs.BrokerPartRanges Proofs.BrokerPartDefs Proofs.RouteProofs Proofs.RouteProofsDyn Proofs.RouteProofsGlue Proofs.RouteProofsEx
+     Proofs.BrokerTotal Proofs.RouteProofsBroker.
 
 (* every chase, from every proxy of the cluster, for every slot: at most one redirection for a slot that is not migrating and at most
    two for a migrating one (phases fixed during the chase); it ends with the command executed on the designated node, or parked in
@@ -115,6 +116,95 @@ Check C02_install_of_view : forall lim st a v name vc,
   install v = install_ns (vc_nodes vc) a.
 Print Assumptions C02_install_of_view.
 
+(* ---------- the same, stated directly about broker histories ----------
+   reachable_any s (Proofs/BrokerTotal.v): s is the result of ANY sequence of broker operations from the empty store.
+   installed s lim a: what proxy a holds after the coordinator delivered the broker's current view of a (view_proxy lim s a).
+   No hypothesis about the views is left: partition_ok is C01 (Proofs/BrokerPartMain.v), view_wfb is derived in
+   Proofs/RouteProofsBroker*.v from C01, the accounting invariant of C12 and the store invariant rinv proved there for every
+   operation (node addresses of proxy a are 2a / 2a+1; every migration entry connects two different chunks and carries a range list
+   that went through compact).  What remains is phases_ok: the property's own "consistent pair of migration phases". *)
+Theorem C02_reachable_views : forall s lim name v,
+  reachable_any s -> view_cluster lim s name = Some (Some v) ->
+  partition_ok (vc_nodes v) /\ view_wfb (vc_nodes v) = true
+  /\ forall a, In a (proxies_of (vc_nodes v)) -> installed s lim a = install_ns (vc_nodes v) a.
+Proof.
+  intros s lim name v Hr Hv. split; [exact (served_partition s Hr lim name v Hv)|].
+  split; [exact (served_view_wf s Hr lim name v Hv)|exact (installed_eq s Hr lim name v Hv)].
+Qed.
+Check C02_reachable_views : forall s lim name v,
+  reachable_any s -> view_cluster lim s name = Some (Some v) ->
+  partition_ok (vc_nodes v) /\ view_wfb (vc_nodes v) = true
+  /\ forall a, In a (proxies_of (vc_nodes v)) -> installed s lim a = install_ns (vc_nodes v) a.
+Print Assumptions C02_reachable_views.
+
+Theorem C02_reachable_route : forall s, reachable_any s -> forall lim name v, view_cluster lim s name = Some (Some v) ->
+  forall ph sl start tr,
+  phases_ok ph (vc_nodes v) = true -> sl < SLOT_NUM -> In start (proxies_of (vc_nodes v)) ->
+  path ph (installed s lim) sl start tr ->
+  ((redirections tr <= if migrating_slot (vc_nodes v) sl then 2 else 1)%nat
+   /\ exists p o, last_step tr = Some (p, o) /\ In p (proxies_of (vc_nodes v)) /\
+        match o with
+        | Exec n => designated ph (vc_nodes v) sl = Some n
+        | Queued n => node_blocked ph (installed s lim p) n = true /\ In n (allowed_nodes (vc_nodes v) sl)
+        | Moved q => In q (proxies_of (vc_nodes v)) /\ route_step ph (installed s lim q) sl <> []
+        | Err _ => False
+        end)
+  /\ (forall p o, In (p, o) tr ->
+        match o with
+        | Exec n | Queued n => In n (allowed_nodes (vc_nodes v) sl)
+        | Moved q => In q (proxies_of (vc_nodes v))
+        | Err _ => False
+        end).
+Proof. exact reachable_route_main. Qed.
+Check C02_reachable_route : forall s, reachable_any s -> forall lim name v, view_cluster lim s name = Some (Some v) ->
+  forall ph sl start tr,
+  phases_ok ph (vc_nodes v) = true -> sl < SLOT_NUM -> In start (proxies_of (vc_nodes v)) ->
+  path ph (installed s lim) sl start tr ->
+  ((redirections tr <= if migrating_slot (vc_nodes v) sl then 2 else 1)%nat
+   /\ exists p o, last_step tr = Some (p, o) /\ In p (proxies_of (vc_nodes v)) /\
+        match o with
+        | Exec n => designated ph (vc_nodes v) sl = Some n
+        | Queued n => node_blocked ph (installed s lim p) n = true /\ In n (allowed_nodes (vc_nodes v) sl)
+        | Moved q => In q (proxies_of (vc_nodes v)) /\ route_step ph (installed s lim q) sl <> []
+        | Err _ => False
+        end)
+  /\ (forall p o, In (p, o) tr ->
+        match o with
+        | Exec n | Queued n => In n (allowed_nodes (vc_nodes v) sl)
+        | Moved q => In q (proxies_of (vc_nodes v))
+        | Err _ => False
+        end).
+Print Assumptions C02_reachable_route.
+
+Theorem C02_reachable_route_dynamic : forall s, reachable_any s -> forall lim name v, view_cluster lim s name = Some (Some v) ->
+  forall sl start phs tr,
+  sl < SLOT_NUM -> In start (proxies_of (vc_nodes v)) ->
+  Forall (fun ph => phases_ok ph (vc_nodes v) = true) phs -> chain phs ->
+  dpath (installed s lim) sl phs start tr ->
+  (redirections tr <= if migrating_slot (vc_nodes v) sl then 3 else 1)%nat
+  /\ exists ph p o, last_ph phs = Some ph /\ last_step tr = Some (p, o) /\ In p (proxies_of (vc_nodes v)) /\
+       match o with
+       | Exec n => designated ph (vc_nodes v) sl = Some n
+       | Queued n => node_blocked ph (installed s lim p) n = true /\ In n (allowed_nodes (vc_nodes v) sl)
+       | Moved q => In q (proxies_of (vc_nodes v))
+       | Err _ => False
+       end.
+Proof. exact reachable_route_dynamic_main. Qed.
+Check C02_reachable_route_dynamic : forall s, reachable_any s -> forall lim name v, view_cluster lim s name = Some (Some v) ->
+  forall sl start phs tr,
+  sl < SLOT_NUM -> In start (proxies_of (vc_nodes v)) ->
+  Forall (fun ph => phases_ok ph (vc_nodes v) = true) phs -> chain phs ->
+  dpath (installed s lim) sl phs start tr ->
+  (redirections tr <= if migrating_slot (vc_nodes v) sl then 3 else 1)%nat
+  /\ exists ph p o, last_ph phs = Some ph /\ last_step tr = Some (p, o) /\ In p (proxies_of (vc_nodes v)) /\
+       match o with
+       | Exec n => designated ph (vc_nodes v) sl = Some n
+       | Queued n => node_blocked ph (installed s lim p) n = true /\ In n (allowed_nodes (vc_nodes v) sl)
+       | Moved q => In q (proxies_of (vc_nodes v))
+       | Err _ => False
+       end.
+Print Assumptions C02_reachable_route_dynamic.
+
 (* non-vacuity: a concrete mid-migration view (two migrations in flight) satisfies the hypotheses, in all eight consistent phase
    pairs; concrete chases with two redirections / parked behind the barrier exist *)
 Example C02_hypotheses_inhabited :
@@ -150,3 +240,13 @@ Example C02_dynamic_example :
   /\ redirections [(6, Moved 8); (8, Moved 2); (2, Moved 8); (8, Exec 16)] = 3%nat
   /\ designated ph_scan ns_ex 5000 = Some 16.
 Proof. exact ex_dynamic_three. Qed.
+(* the example view is a served view of a reachable store, so the broker-level theorems apply to it *)
+Example C02_reachable_example :
+  reachable_any (run (init_store false) ex_ops)
+  /\ exists v, view_cluster 0 (run (init_store false) ex_ops) 1 = Some (Some v) /\ vc_nodes v = ns_ex /\ In 6 (proxies_of (vc_nodes v)).
+Proof.
+  split.
+  - apply run_reachable. intros snap Hin. unfold ex_ops in Hin. cbn [In] in Hin.
+    repeat (destruct Hin as [Hin|Hin]; [discriminate|]). destruct Hin.
+  - eexists. split; [vm_compute; reflexivity|]. split; [vm_compute; reflexivity|vm_compute; auto 10].
+Qed.
